@@ -37,6 +37,10 @@ META.update({
    detected_by={'C13': 'MISSED as generated before: pool masks were reused but never refilled. Every pool mask now has a second content of the same shape and the client refills the same object in place between calls. Now yes: 27 of 3000 runs, 9 sites'}),
  'C19-d': dict(property='C19', file='groupby_lib/util.py: _val_to_numpy (new zero-copy branch writing NaN into the null slots of an Arrow float buffer through ctypes)', needs='values in a single-chunk polars Series or a pandas ArrowDtype Series AND float32/float64 AND at least one real Arrow null (validity bitmap) AND any operation converting values through _val_to_numpy',
    detected_by={'C19': 'MISSED as generated before: Arrow-backed containers carried NaN as values, never validity-bitmap nulls. Containers polars_nulls / pandas_arrow_nulls added (null slots hold a finite filler in a caller-owned, fingerprinted buffer). Now yes (inputs_unchanged and task_wrote_argument on cumsum, transform reductions, apply)'}),
+ 'C03-d': dict(property='C03', file='groupby_lib/groupby/factorization.py: factorize_2d (hash-table tracker with int32 keys)', needs='two or more keys whose distinct counts multiply to >= use_dict_limit (5e8) and beyond 2**32 (e.g. > 65,536 distinct values per key, >= ~70,000 rows) AND two present key combinations congruent mod 2**32: they are merged into one group',
+   detected_by={'C03': 'MISSED as generated before (no input reached the hash-table route). A fifth real-scale pattern was added: two keys of 100,000 distinct values each on 200-400k rows, compared with the same grouping expressed as one composite integer key. Now yes: every such run (label_diff on size/count/min/last)'}),
+ 'C04-d': dict(property='C04', file='groupby_lib/groupby/numba.py: _group_func_wrap (a threading.Event shared by the block tasks: "stop scanning once a block has seen every group")', needs='group_first called WITHOUT return_count AND > 1 block AND a later block holding a value for every group AND that block executing before an earlier block starts -- a schedule a real pool practically never produces (0 of 16,900 real-pool calls in the author\'s stress test)',
+   detected_by={'C04': 'MISSED as generated before, for a mundane reason: every kernel call passed return_count=True. One call in three now omits it. Now yes: 8 of 20000 runs (blockwise value_diff / returns_vs_raises on first) -- found only because the simulated pool permutes the execution order of deferred tasks'}),
 })
 for id_, m in META.items():
     d=f'{ROOT}/{id_}'
